@@ -138,8 +138,8 @@ def judge(case, impl, model):
             if b["missing_fields"]:
                 fails.append(("fields-not-superset", f"{name} lacks fields {b['missing_fields']} of base {b['base']}"))
             for n in b["missing_required"]:
-                if n in b["base_constants"] and n in b["redeclared"]:
-                    continue   # the subclass replaces the base's Constant by a Field of its own: its requiredness is the subclass's choice
+                if n in b["base_constants"] and (n in b["redeclared"] or n in b.get("replaced_constants", [])):
+                    continue   # the base's Constant is a Field in the subclass (replaced by the subclass or by a branch earlier in the MRO)
                 if n in b["base_constants"]:
                     key = "required-not-superset:constant"
                 elif n in b["shadowed"]:
